@@ -191,8 +191,10 @@ contract(
     FL,
     'Flow._parse_operations',
     props=('C16', 'C03'),
-    params={'what': int_(3, 13), 'klass': obj(None), 'bgp': bytes_(0, 4095, 'memoryview'), 'rules': obj(None)},
+    params={'what': int_(3, 13), 'klass': obj(None), 'bgp': bytes_(1, 4095, 'memoryview'), 'rules': obj(None)},
     ghost={'nops': const(0), 'next_pos': const(0)},
+    # the operator list handed over starts right after the component type byte it belongs to
+    requires=['len(bgp) == 0 or vbefore(bgp) == what'],
     callees={
         'klass.decoder': _decoder,
         'issubclass': lambda it, a, k, fr, n: True,
@@ -235,6 +237,8 @@ def _make_prefix(it, args, kwargs, fr, node):
 
     ctx = it.ctx
     b = args[0].pieces[0] if args[0].pieces else None
+    if b is not None:
+        ctx.oblige('prefix:after-type-byte', 'pre', to_z3(fr.lookup('what')) == z3.Select(b.arr(), to_z3(b.off) - 1), 'the prefix component handed to make() starts right after its type byte')
     which = ctx.fresh('make!outcome')
     ctx.assume(z3.And(which >= 0, which <= 2))
     if b is None or ctx.branch(which == 1):
